@@ -27,6 +27,7 @@
 #include <complex.h>
 #include <ctype.h>
 #include <errno.h>
+#include <limits.h>
 #include <math.h>
 #include <stdarg.h>
 #include <stdio.h>
@@ -1161,6 +1162,13 @@ static int parse_set(vnacal_load_state_t *vlsp, yaml_node_t *node)
 	_vnacal_error(vcp, VNAERR_SYNTAX,
 		"%s (line %ld) error: \"rows\" and \"columns\" must be "
 		"at least 1",
+		vcp->vc_filename, node->start_mark.line + 1);
+	return -1;
+    }
+    if (MAX(rows, columns) > INT_MAX / 4 / MAX(rows, columns)) {
+	/* no error term type has more than 4 ports^2 terms */
+	_vnacal_error(vcp, VNAERR_SYNTAX,
+		"%s (line %ld) error: \"rows\" or \"columns\" is too large",
 		vcp->vc_filename, node->start_mark.line + 1);
 	return -1;
     }
